@@ -50,6 +50,8 @@ int main(VF_MAIN_ARGS)
     } else {
         VF_ASSERT(vf_live == 0 && item.valuestring == 0 && item.child == 0, "CONTRACT parse_value failure => item owns nothing");
     }
+    /* C10 (prefix re-parse): whether a value is recognised does not depend on what follows it - in particular not on whether anything follows */
+    if (lit(content, off, "null", 4) || lit(content, off, "false", 5) || lit(content, off, "true", 4)) VF_AP(10, ok && buf.offset == off + (lit(content, off, "false", 5) ? 5 : 4), "C10 a literal is recognised wherever it ends, also flush with the end of the buffer");
     if (lit(content, off, "null", 4)) { VF_AP(2, ok && item.type == cJSON_NULL && buf.offset == off + 4 && sub_calls == 0 && ps_calls == 0, "C02 null literal"); VF_WITNESS("null"); }
     else if (lit(content, off, "false", 5)) { VF_AP(2, ok && item.type == cJSON_False && buf.offset == off + 5 && sub_calls == 0 && ps_calls == 0, "C02 false literal"); }
     else if (lit(content, off, "true", 4)) { VF_AP(2, ok && item.type == cJSON_True && item.valueint == 1 && buf.offset == off + 4 && sub_calls == 0 && ps_calls == 0, "C02 true literal"); }
